@@ -22,7 +22,7 @@ NPTS = 25
 
 
 def floors(tier):
-    return {"points_checked": 400, "points_generic": 200, "points_passed_as_non_contiguous_view": 300, "points_checked_right_after_a_call_with_an_integer_array": 500, "solver_runs_with_gradient_scaler": 8, "points_within_1e-7_of_a_cosine_zero": 20, "points_checked_after_solver_runs": 250, "solver_runs_on_exported_functions": 20, "__nontrivial__": 40}
+    return {"points_checked": 400, "points_generic": 200, "points_passed_as_non_contiguous_view": 300, "points_checked_right_after_a_call_with_an_integer_array": 500, "solver_runs_with_gradient_scaler": 8, "points_within_1e-7_of_a_cosine_zero": 20, "points_checked_after_solver_runs": 250, "solver_runs_on_exported_functions": 20, "history_calls_judged": 1500, "history_calls_through_one_overwritten_array": 700, "calls_at_non_finite_points": 100, "__nontrivial__": 40}
 
 
 def cases(tier, seed):
@@ -39,6 +39,12 @@ def cases(tier, seed):
             n = 2 + j % 4
             yield {"name": name, "n": n, "seed": subseed("C19s", seed, name, j) % (2**31), "kind": "after_solver",
                    "maxls": [1, 2, 2, 3, 20, 2][j % 6], "maxcor": 1 + j % 5}
+    for name in NAMES:
+        for n in range(1, 7):
+            if name in ("rosenbrock", "beale") and n < 2:
+                continue
+            for r in range(3 if tier == "quick" else 60):
+                yield {"name": name, "n": n, "seed": subseed("C19h", seed, name, n, r) % (2**31), "kind": "history"}
 
 
 def run_after_solver(spec, out):
@@ -97,6 +103,95 @@ def run_after_solver(spec, out):
     return out
 
 
+def run_history(spec, out):
+    """A user's call history: value and gradient requests in any order over a small pool of points, handed over in one work array
+    that is overwritten in place between the calls (or as fresh copies), with calls at points outside the domain (an infinite or
+    undefined coordinate, possibly of another dimension) in between. Every answer at a pool point is judged as if it were the only call
+    ever made: the functions are functions of the point they are given."""
+    import lbfgsb
+
+    name, n = spec["name"], spec["n"]
+    f = getattr(lbfgsb, name)
+    g = getattr(lbfgsb, name + "_grad")
+    rng = np.random.default_rng(spec["seed"])
+    pool = []
+    while len(pool) < 4:
+        x = rng.uniform(-5, 5, n)
+        if name == "ackley" and np.linalg.norm(x) < 0.5:
+            continue
+        pool.append(x)
+    if rng.random() < 0.5:
+        pool[3] = pool[0] + rng.choice([-1.0, 1.0], n) * 1e-9  # two pool points that differ in the ninth digit only
+        if rng.random() < 0.5:
+            pool[3] = np.array(pool[0][::-1], copy=True)  # ... or that hold the same numbers in another order (same sums)
+    buf = np.empty(n)
+    answers = []  # (pool index, 'f'|'g', answer)
+    old = np.seterr(all="ignore")
+    try:
+        for step in range(40):
+            k = int(rng.integers(0, len(pool)))
+            what = "fg"[int(rng.integers(0, 2))]
+            r = rng.random()
+            if r < 0.2:
+                # a call outside the domain: it may raise or return anything; what it leaves behind must not show later
+                m = n if rng.random() < 0.6 else int(rng.integers(1, 8))
+                if name in ("rosenbrock", "beale"):
+                    m = max(m, 2)
+                bad = rng.uniform(-5, 5, m)
+                bad[int(rng.integers(0, m))] = float(rng.choice([np.inf, -np.inf, np.nan]))
+                for fn in ((f, g) if rng.random() < 0.5 else (g, f))[: int(rng.integers(1, 3))]:
+                    try:
+                        fn(bad)
+                        out.count("calls_at_non_finite_points")
+                    except Exception:
+                        out.count("calls_at_non_finite_points_that_raised")
+                # ... and right after it the point requested before it
+                if answers:
+                    k, what = answers[-1][0], answers[-1][1]
+            if r < 0.6:
+                buf[:] = pool[k]
+                arg = buf  # one work array, overwritten in place
+                out.count("history_calls_through_one_overwritten_array")
+            else:
+                arg = pool[k].copy()
+            a = (f if what == "f" else g)(arg)
+            answers.append((k, what, np.array(a, copy=True) if what == "g" else a))
+            out.count("history_calls_judged")
+        fresh = [(f(x.copy()), richardson_grad(lambda z: float(f(z)), x)) for x in pool]
+        for k, what, a in answers:
+            x = pool[k]
+            if what == "f":
+                ok_scalar = np.isscalar(a) or (isinstance(a, np.ndarray) and a.ndim == 0)
+                if not ok_scalar or isinstance(a, (complex, np.complexfloating)) or not np.isfinite(float(a)):
+                    out.violate("value_not_real_scalar", f"{name}({x!r}) returned {a!r} in a call history", fn=name, kind="history")
+                    break
+                if not abs(float(a) - float(fresh[k][0])) <= 1e-12 * max(1.0, abs(float(fresh[k][0]))):
+                    out.violate("value_depends_on_call_history", f"{name}({x.tolist()}) returned {float(a)!r} within a history of calls and "
+                                f"{float(fresh[k][0])!r} when called alone", fn=name, kind="history")
+                    break
+            else:
+                a = np.asarray(a)
+                if a.shape != x.shape:
+                    out.violate("grad_shape", f"{name}_grad shape {a.shape} for x shape {x.shape} in a call history", fn=name, kind="history")
+                    break
+                ref = fresh[k][1]
+                err = float(np.max(np.abs(a - ref)))
+                scale = max(1.0, float(np.max(np.abs(ref))))
+                if not (err <= TOL * scale):
+                    out.violate("grad_mismatch", f"{name}_grad at x={x.tolist()} within a history of calls (work array overwritten in place, calls "
+                                f"at non-finite points in between) is {a.tolist()} but the numerical derivative is {ref.tolist()} (err {err:.3e})",
+                                fn=name, kind="history")
+                    break
+        out.count("points_checked", len(pool))
+        out.count("points_generic", len(pool))
+    finally:
+        np.seterr(**old)
+    out.nontrivial = True
+    out.key = f"history/{name}/{n}/{spec['seed']}"
+    out.sample = dict(spec=spec, calls=len(answers))
+    return out
+
+
 def check_point(f, g, x, out: Outcome, name, given=None):
     """The oracle on one point. Returns True when the point was judged.
     given: (value, gradient) already obtained by the caller for this point (through a reused work array)."""
@@ -129,6 +224,8 @@ def run(spec):
     out = Outcome()
     if spec["kind"] == "after_solver":
         return run_after_solver(spec, out)
+    if spec["kind"] == "history":
+        return run_history(spec, out)
     name, n = spec["name"], spec["n"]
     f = getattr(lbfgsb, name)
     g = getattr(lbfgsb, name + "_grad")
